@@ -29,6 +29,7 @@ var (
 	faultK      int
 	faultSticky bool
 	faultDoc    string
+	faultHits   int
 
 	startCPU  atomic.Int64 // cpu ns at request start, 0 = idle
 	budgetCPU atomic.Int64
@@ -47,9 +48,11 @@ func pathLoader(p string) (json.RawMessage, error) {
 	if faultK > 0 {
 		if loads == faultK {
 			faultDoc = p
+			faultHits++
 			return nil, fmt.Errorf("vfs: injected failure on load #%d of %s", loads, p)
 		}
 		if faultSticky && faultDoc != "" && p == faultDoc {
+			faultHits++
 			return nil, fmt.Errorf("vfs: injected permanent failure of %s", p)
 		}
 	}
@@ -98,7 +101,7 @@ func main() {
 func handle(req *wproto.Request) (resp *wproto.Response) {
 	resp = &wproto.Response{}
 	vfs, loads, loadTrace = req.Docs, 0, nil
-	faultK, faultSticky, faultDoc = req.FaultK, req.FaultSticky, ""
+	faultK, faultSticky, faultDoc, faultHits = req.FaultK, req.FaultSticky, "", 0
 	b := int64(req.CPUMs)
 	if b <= 0 {
 		b = wproto.DefaultCPUMs
@@ -116,6 +119,7 @@ func handle(req *wproto.Request) (resp *wproto.Response) {
 		}
 		resp.Loads = loads
 		resp.LoadTrace = loadTrace
+		resp.FaultHits = faultHits
 	}()
 	switch req.Op {
 	case "flatten":
